@@ -7,6 +7,7 @@
     also be used to store and transfer machines.
 """
 
+import copy
 from functools import partial
 import importlib
 import itertools
@@ -47,7 +48,7 @@ class MarkupMachine(Machine):
                  queued=False, prepare_event=None, finalize_event=None, model_attribute='state',
                  model_override=False, on_exception=None, on_final=None, markup=None, auto_transitions_markup=False,
                  **kwargs):
-        self._markup = markup or {}
+        self._markup = copy.deepcopy(markup) if markup else {}  # the markup is a value: never share the caller's dict
         self._auto_transitions_markup = auto_transitions_markup
         self._needs_update = True
 
